@@ -184,14 +184,25 @@ namespace sim
 			return;
 		}
 
+		// the shortest requests (a 1- or 2-character host name) are shorter
+		// than the 10 bytes every other request starts with
 		asio::async_read(m_client_connection, asio::buffer(&m_out_buffer[0], 10)
+			, [this](error_code const& e, size_t const n) -> size_t
+			{
+				if (e) return 0;
+				if (n >= 5 && m_out_buffer[3] == 3
+					&& n >= 7u + std::uint8_t(m_out_buffer[4])) return 0;
+				return 10 - n;
+			}
 			, std::bind(&socks_connection::on_request1, shared_from_this()
 				, std::placeholders::_1, std::placeholders::_2));
 	}
 
 	void socks_connection::on_request1(error_code const& ec, size_t bytes_transferred)
 	{
-		size_t const expected = m_version == 4 ? 9 : 10;
+		size_t const expected = m_version == 4 ? 9
+			: (bytes_transferred >= 5 && m_out_buffer[3] == 3 && std::uint8_t(m_out_buffer[4]) < 3)
+			? 7u + std::uint8_t(m_out_buffer[4]) : 10;
 		if (ec || bytes_transferred != expected)
 		{
 			std::printf("socks_connection::on_request1: (%d) %s\n"
@@ -357,17 +368,11 @@ namespace sim
 				// address. Now, with a domain name, one of those bytes was the
 				// length-prefix, but we still read 3 bytes already.
 				const int additional_bytes = len - 3;
-				if (additional_bytes == 0)
+				if (additional_bytes <= 0)
 				{
-					// a 3-character host name: the whole request is already here
+					// a host name of up to 3 characters: the whole request is already here
 					on_request_domain_name(error_code(), 0);
 					break;
-				}
-				if (additional_bytes < 0)
-				{
-					// shorter names don't fill the 10 bytes read so far; not supported
-					close_connection();
-					return;
 				}
 				asio::async_read(m_client_connection, asio::buffer(&m_out_buffer[10], additional_bytes)
 					, std::bind(&socks_connection::on_request_domain_name
@@ -397,7 +402,9 @@ namespace sim
 			return;
 		}
 
-		int const buffer_size = int(10 + bytes_transferred);
+		(void)bytes_transferred;
+		// header, length prefix, name and port
+		int const buffer_size = 7 + std::uint8_t(m_out_buffer[4]);
 
 		std::uint16_t port = m_out_buffer[buffer_size - 2] & 0xff;
 		port <<= 8;
